@@ -1071,6 +1071,19 @@ class ReftableRefsContainer(RefsContainer):
 
         raise ValueError(f"Unknown ref value type: {value_type}")
 
+    def read_ref(self, refname: Ref) -> bytes | None:
+        """Read a reference without following any references.
+
+        Args:
+            refname: The name of the reference
+        Returns: The contents of the ref, or None if it does not exist
+            (which also makes ``refname in container`` answer False).
+        """
+        try:
+            return self.read_loose_ref(refname)
+        except KeyError:
+            return None
+
     def get_packed_refs(self) -> dict[Ref, ObjectID]:
         """Get packed refs. Reftable doesn't distinguish packed/loose."""
         refs = self._read_all_tables()
